@@ -14,6 +14,7 @@ import (
 	"sort"
 	"strconv"
 	"strings"
+	"unicode"
 	"unicode/utf8"
 )
 
@@ -165,6 +166,42 @@ func foldASCII(s string) string {
 	return string(b)
 }
 
+
+// asciiDigits replaces every decimal digit of another script (category Nd) by
+// the ASCII digit of the same value.
+func asciiDigits(s string) string {
+	if !utf8.ValidString(s) {
+		return s
+	}
+	var sb strings.Builder
+	for _, r := range s {
+		if v, ok := ndValue(r); ok && r >= 0x80 {
+			sb.WriteByte(byte('0' + v))
+		} else {
+			sb.WriteRune(r)
+		}
+	}
+	return sb.String()
+}
+
+// ndRun returns the first rune of the run of consecutive Nd runes r is in.
+func ndRun(r rune) rune {
+	s := r
+	for s > 0 && unicode.Is(unicode.Nd, s-1) {
+		s--
+	}
+	return s
+}
+
+// ndValue: the digit value of a rune of Nd. Every run of consecutive Nd runes
+// is a whole number of blocks 0..9 (checked by lookSelfCheck).
+func ndValue(r rune) (int, bool) {
+	if !unicode.Is(unicode.Nd, r) {
+		return 0, false
+	}
+	return int(r-ndRun(r)) % 10, true
+}
+
 // checkText applies the per-text clauses of the statement.
 func checkText(text string, exp *expectation) []finding {
 	var out []finding
@@ -254,6 +291,11 @@ func checkText(text string, exp *expectation) []finding {
 			// "numeric-looking ... captures may appear as JSON numbers ... of
 			// equal value"
 			cd, cok := parseDecimal(capture)
+			if !cok {
+				// a capture written in the decimal digits of another script
+				// is numeric-looking too; its value is the one its digits have
+				cd, cok = parseDecimal(asciiDigits(capture))
+			}
 			vd, vok := parseDecimal(string(v))
 			if !cok {
 				add("member/"+kind+"/number-for-non-numeric-capture", "member %q is the number %s, the captured text is %q", key, v, capture)
